@@ -25,7 +25,10 @@ META = {
     "trusted_base": ["z3 (LRA)", "symx", "numpy/pandas as executed", "independent rule enumeration + metric table in the harness"],
     "stubs": ["check_array pass-through", "score provider stub"],
     "assumptions": ["scores in [0,1]", "both labels in every group", "objective compared with 1e-9 slack"],
-    "outside": ["n > 7", "float rounding"],
+    "outside": ["n > 7", "float rounding",
+                "scores in machine dtypes (int8, uint8, int16, float32, int64): arrays of these types cannot hold solver terms; covered by CONCRETE seeded score "
+                "vectors near the top of the dtype's range (jobs 'dtypes-*', 15/90 per dtype), each decided by the same LRA optimality query - sampling over "
+                "score vectors, solver verdict per vector"],
 }
 MANIFEST = {
     "level_text": "Bounded symbolic exploration + per-path LRA optimality certificate: over every weak-ordering class of scores (z3-enumerated paths of the "
